@@ -73,15 +73,15 @@ def conformance(pid, tier, seed):
             cfgs = SERPENT_CFGS
         # per-family effort (TLC cost per key schedule differs by orders of magnitude)
         if fam == "Blowfish":
-            kw = dict(keys=14 if thorough else 2, blocks=4 if thorough else 2, lens="all")
+            kw = dict(keys=40 if thorough else 2, blocks=5 if thorough else 2, lens="all")
         elif fam in ("Serpent", "Kuznyechik", "Threefish", "Gift"):
-            kw = dict(keys=30 if thorough else 4, blocks=8 if thorough else 3, lens="all")
+            kw = dict(keys=80 if thorough else 4, blocks=10 if thorough else 3, lens="all")
         elif fam == "RC2":
-            kw = dict(keys=8 if thorough else 2, blocks=4 if thorough else 2, lens="all")
+            kw = dict(keys=16 if thorough else 2, blocks=5 if thorough else 2, lens="all")
         elif fam == "AES":
-            kw = dict(keys=60 if thorough else 6, blocks=10 if thorough else 3, lens="all")
+            kw = dict(keys=200 if thorough else 6, blocks=12 if thorough else 3, lens="all")
         else:
-            kw = dict(keys=120 if thorough else 10, blocks=10 if thorough else 4, lens="all")
+            kw = dict(keys=400 if thorough else 10, blocks=12 if thorough else 4, lens="all")
         evs = []
         for i, (cfg_id, extra) in enumerate(cfgs):
             k = dict(kw)
@@ -113,9 +113,9 @@ def c14(tier, seed):
     # spec -> impl: TLC enumerates all call sequences of the eksblowfish sub-machine up to the bound
     r = c.model_check("Eks_MC.tla", "Eks_MC.cfg", "Eks_MC", workers=4, timeout=600, must_cover=("Expand", "Salted", "Encrypt"))
     scen_path = os.path.join(c.work, "eks-scenarios.ndjson")
-    n = scen.extract(r.out, scen_path, limit=(400 if thorough else 60), seed=seed)
+    n = scen.extract(r.out, scen_path, limit=(1500 if thorough else 60), seed=seed)
     evs = c.drive("default", "bcrypt", scenarios=scen_path)
-    evs += renumber(c.drive("default", "bcrypt", n=6 if not thorough else 30, steps=4 if not thorough else 6,
+    evs += renumber(c.drive("default", "bcrypt", n=6 if not thorough else 120, steps=4 if not thorough else 6,
                             cost=1 if not thorough else 3), 10_000_000)
     c.notes["tlc_generated_scenarios"] = n
     c.samples.append({"tlc_generated_scenario": read_ndjson(scen_path)[min(5, n - 1)]})
@@ -135,7 +135,7 @@ def c17(tier, seed):
     for i, (cfg_id, extra) in enumerate(AES_CFGS + [(sid, {}) for sid, _ in shadow_cfgs(("AES",))]):
         if cfg_id == "aes-compact":
             continue
-        e = c.drive(cfg_id, "hazmat", n=200 if tier == T else 30, **extra)
+        e = c.drive(cfg_id, "hazmat", n=3000 if tier == T else 30, **extra)
         evs += renumber(e, i * 10_000_000)
     c.validate(evs, mod, cfg, "haz", what="AES hazmat round functions")
     rule = ("haz events (cipher_round, equiv_inv_cipher_round, mix_columns, inv_mix_columns, 8-block parallel forms with 8 independent "
